@@ -48,7 +48,18 @@ CHECKS = {
    "antispam README is the specification of the counter mechanism; no wall clock", "DESIGN.md §3 C20"),
  "C15": ("exploration", "runtime monitoring: per-(source,stream) reference model of run reassembly vs the real join / join_template / k8s-multiline actions inside real multi-processor pipelines under -race; time-out splits accepted only where the harness's own clock shows a feeder gap >= event_timeout",
    "Each case is a real pipeline with several sources x streams over 1-16 processors; every output event is decided by a reference model (ids, joined bytes, order, no loss/duplicate/foreign bytes); lines carry source/stream/index tags.",
-   "Go regexp is shared for start/continue classification; pauses are measured in streamer heartbeat ticks", "DESIGN.md §3 C15"),
+   "Go regexp is shared for start/continue classification; pauses are measured in streamer heartbeat ticks", "DESIGN.md §3 C15"), "C06": ("exploration", "runtime monitoring: reference line splitter vs the real file-input worker/provider on real temp files (exhaustive small scope + seeded large cases + plugin-level sample)",
+   "Every In(offset, data) call of the real worker.work is compared per source and read round with an independent line splitter, exhaustively over newline placements x buffer sizes x limits x append splits x resume modes, plus a directed family with write notifications inside a read round.",
+   "accessor runs the real worker over jobs created and re-queued by the provider's own functions (build tag verif)", "DESIGN.md §3 C06"),
+ "C07": ("fault_enumeration", "runtime monitoring with fault injection: round trip of job tables through the real offsetDB save/load, kill/error at every step of save, concurrent commits vs saves on a logical clock, strace syscall-order monitor (fsync before rename)",
+   "Enumerates crash points (5 protocol points) and I/O faults (injected errors, RLIMIT_FSIZE short write, strace-injected fsync EIO, ENOENT, EXDEV) of the save protocol for the file offsetDB and the generic offset package; after each the file on disk must load to the previous or the new snapshot.",
+   "process kill stands for a crash; power-loss durability is represented by the observed fsync-before-rename order only", "DESIGN.md §3 C07"),
+ "C10": ("exploration", "runtime monitoring: the real kafka input against a loopback stub broker (kmsg), packing and frontier oracles over marked and broker-committed offsets under -race",
+   "The real plugin runs unmodified (Start, group join, PollRecords, spread In, Commit, auto-commit) against an in-harness broker; every marked head and every OffsetCommit is checked against the handed records (topic/partition/epoch/offset+1) and against the set of finished records of the partition.",
+   "the stub broker implements only the APIs the client uses; broker-side redelivery by a second consumer run is not exercised", "DESIGN.md §3 C10"),
+ "C19": ("exploration", "runtime monitoring: independent framing parsers over payloads captured at the transport of the real output plugins (loopback HTTP/TCP sinks, target file, recording Kafka client)",
+   "Real elasticsearch/http/splunk/loki/gelf/file/kafka outputs driven through Out -> Batcher -> out with hostile field values, child/parent events, buffer reuse across batches, retries and 413 split patterns; each payload must parse to exactly the batch's deliverable events in order.",
+   "strict JSON reference parser of the harness; the Kafka client is replaced by a recorder through the verif accessor", "DESIGN.md §3 C19"),
 }
 
 PENDING_REASON = "check not built yet in this round (runtime-monitoring design in DESIGN.md §3); not claimed until its monitor exists and is silent on the unchanged tree"
